@@ -98,7 +98,7 @@ pub fn plan_lifecycle_lp(w: &World, knobs: &Knobs, actor: &mut Actor, l: &Ledger
                 }
                 let fake = decode::Position { lower: lo, upper: hi, ..Default::default() };
                 let la = liq_accounts(actor, &pi.keys, &pk, &fake);
-                flow.push((tx1(ix::increase_liquidity_v2(&la, rng.log_u128(knobs.liq_bits.min(60)), u64::MAX, u64::MAX)), "increase_liquidity".into()));
+                flow.push((tx1(ix::increase_liquidity_v2(&la, crate::gen::liq_amount(rng, knobs.liq_bits.min(60).max(40)), u64::MAX, u64::MAX)), "increase_liquidity".into()));
             }
         }
         4 | 5 if !mine.is_empty() => {
@@ -242,7 +242,7 @@ pub fn plan_lifecycle_lp(w: &World, knobs: &Knobs, actor: &mut Actor, l: &Ledger
             if let (Some(ppi), Some(ppool)) = (pool_of(w, &p.whirlpool), l.data(&p.whirlpool).and_then(decode::pool)) {
                 let la = liq_accounts(actor, &ppi.keys, pk, p);
                 match rng.below(5) {
-                    0 => flow.push((tx1(ix::increase_liquidity_v2(&la, rng.log_u128(40), u64::MAX, u64::MAX)), "increase_liquidity".into())),
+                    0 => flow.push((tx1(ix::increase_liquidity_v2(&la, crate::gen::liq_amount(rng, 40), u64::MAX, u64::MAX)), "increase_liquidity".into())),
                     1 => flow.push((tx1(ix::decrease_liquidity(&la, (p.liquidity / 2).max(1), 0, 0)), "decrease_liquidity".into())),
                     2 => flow.push((tx1(ix::decrease_liquidity_v2(&la, p.liquidity.max(1), 0, 0)), "decrease_liquidity".into())),
                     3 => flow.push((tx1(ix::collect_fees_v2(&la)), "collect_fees".into())),
@@ -356,7 +356,7 @@ pub fn plan_lifecycle_lp(w: &World, knobs: &Knobs, actor: &mut Actor, l: &Ledger
                     ta_lower: ix::pda_tick_array(&wk, ta_start(lo, sp)),
                     ta_upper: ix::pda_tick_array(&wk, ta_start(hi, sp)),
                 };
-                flow.push((tx1(ix::increase_liquidity(&la, rng.log_u128(40), u64::MAX, u64::MAX)), "increase_liquidity".into()));
+                flow.push((tx1(ix::increase_liquidity(&la, crate::gen::liq_amount(rng, 40), u64::MAX, u64::MAX)), "increase_liquidity".into()));
             }
         }
         12 | 18 if !bundles.is_empty() && (action == 18 || mine.is_empty()) => {
